@@ -624,6 +624,29 @@ theorem C13_system_fromSamples (obs : List (κ × (σ → List ℝ))) (samples :
     simpa using this
   simp [this]
 
+theorem collect_map_nil {β γ : Type} (ds : List β) :
+    collect (ds.map (fun _ => (Except.ok [] : Except PyErr (List γ)))) = .ok (ds.map (fun _ => [])) := by
+  induction ds with
+  | nil => rfl
+  | cons d ds ih => simp only [List.map_cons, collect, ih]
+
+theorem sysFold_nil (c : ℕ) (rows : List (List (Stat ℝ))) (t : ℕ) :
+    (rows.foldl (sysStep c) (([] : List (ℝ × Option ℝ)), t)).1 = [] := by
+  induction rows generalizing t with
+  | nil => rfl
+  | cons r rs ih => simp only [List.foldl_cons, sysStep, sysInner, List.zipWith_nil_left]; exact ih _
+
+/-- **C13.8** the empty set of observables, `System()`: whenever the chain count is positive, `System.statistics` makes
+exactly the sampler calls of the loop (the same `draws` as for any other set: burn-in first, then `steps`, threaded) and
+returns the empty dictionary. -/
+theorem C13_system_empty (env : Env σ) (a : Args σ) (T : ℕ)
+    (hT : numTimeSteps a.numSamples (chainSetup env a).2 = .ok T) :
+    systemStatistics (κ := κ) env ([] : List (κ × (σ → List ℝ))) a
+      = .ok ([], (draws env (chainSetup env a).2 a.burnIn a.steps T 0 (chainSetup env a).1).map (·.1)) := by
+  unfold systemStatistics sysStatistics
+  simp only [systemInit, List.foldl_nil, List.map_nil, hT, collect, collect_map_nil, List.length_nil, sysFold,
+    List.replicate_zero, sysFinish, sysFold_nil, List.isEmpty_nil, if_true, List.zip_nil_left]
+
 /-- an empty batch: every observable's `statistics_from_samples` divides by `len(obs_samples) = 0` -/
 theorem C13_fromSamples_empty : fromSamples ([] : List ℝ) = .error .ZeroDivisionError := rfl
 
